@@ -354,7 +354,10 @@ func (g *pgen) stmt(indent, d int) {
 			"print(len("+m+"));",
 			"print(first(sort("+m+", fn(a, b) { return a < b; })));",
 			"print(any("+m+", fn(a) { return a > 2; }));",
-			"print(first("+m+") + len(sort("+m+", fn(a, b) { return a > b; })));"))
+			"print(first("+m+") + len(sort("+m+", fn(a, b) { return a > b; })));",
+			// a callback that assigns to its own parameter: the map itself must not change
+			"print(any("+m+", fn(a) { a = a + 10; return a > 100; })); print(first("+m+"));",
+			"print(any("+m+", fn(a) { a = a * 2; return a >= 8; })); print(any("+m+", fn(a) { a = a * 2; return a >= 8; })); print(first("+m+"));"))
 	default:
 		g.line(indent, "print("+g.numExpr(2)+");")
 	}
@@ -459,6 +462,10 @@ func evalGen(r *rand.Rand, tier string, n int) []*wire.Case {
 		"switch { case 0: print(1); case 1.5: print(2); fallthrough; default: print(9); }", "switch 3 { case 3: print(3); fallthrough; }")
 	add("d-switch", "switch 2 { case 1: print(1); case 2: print(2); fallthrough; case 3: print(3); default: print(9); }", "switch 5 { case 1: print(1); default: print(9); }",
 		"switch { case 0: print(0); case 2 > 1: print(1); break; case 1: print(2); }", "switch 1 { case 1: print(1); fallthrough; }", "let r = 0; fn f(x) { switch x { case 1: return 10; case 2: r = 5; } return r; } print(f(1)); print(f(2)); print(f(3));")
+	add("d-callback-params-are-local", "let m = [1, 2, 3]; print(any(m, fn(x) { x = x + 10; return x > 100; })); print(first(m)); print(any(m, fn(x) { return x > 10; }));",
+		"let m = [1, 2, 3]; fn dbl(x) { x = x * 2; return x >= 6; } print(any(m, dbl)); print(any(m, dbl)); print(first(m)); print(len(m));",
+		"let m = [5]; print(any(m, fn(x) { x = 0; return x; })); print(first(m));", "let v = 3; fn f(x) { x = x + 1; return x; } print(f(v)); print(v);",
+		"let m = [4, 2]; let s = sort(m, fn(a, b) { return a < b; }); print(first(s)); print(first(m));")
 	add("d-maps", "let m = [3, 1, 2]; print(len(m)); print(first(m)); let s = sort(m, fn(a, b) { return a < b; }); print(first(s)); print(first(m));",
 		"print(any([1, 2, 3], fn(v) { return v > 2; })); print(any([], fn(v) { return 1; }));", "let e = []; print(len(e)); print(first(e));", "let m = [a = 1, b = 2, 5]; print(len(m));")
 	cases = append(cases, &wire.Case{ID: "d-callbacks", Ops: []*wire.Rec{
